@@ -60,6 +60,106 @@ func ResponseKeys(doc *jsonv.Value) map[string][]string {
 	return out
 }
 
+// UnusedPathParams: "METHOD /path" -> names of parameters declared with in: path (operation or path-item level,
+// component references resolved) that the path template does not contain.
+func UnusedPathParams(doc *jsonv.Value) map[string][]string {
+	out := map[string][]string{}
+	paths := doc.Get("paths")
+	if paths == nil || paths.Kind != jsonv.Object {
+		return out
+	}
+	deref := func(p *jsonv.Value) *jsonv.Value {
+		for k := 0; k < 5 && p != nil && p.Kind == jsonv.Object && p.Get("$ref") != nil; k++ {
+			ref := p.Get("$ref").Str
+			const pre = "#/components/parameters/"
+			if !strings.HasPrefix(ref, pre) {
+				return nil
+			}
+			c := doc.Get("components")
+			if c == nil || c.Get("parameters") == nil {
+				return nil
+			}
+			p = c.Get("parameters").Get(ref[len(pre):])
+		}
+		return p
+	}
+	for _, pm := range paths.Members {
+		item := pm.Value
+		if item.Kind != jsonv.Object {
+			continue
+		}
+		for _, m := range methods {
+			op := item.Get(m)
+			if op == nil || op.Kind != jsonv.Object {
+				continue
+			}
+			var names []string
+			for _, holder := range []*jsonv.Value{item.Get("parameters"), op.Get("parameters")} {
+				if holder == nil || holder.Kind != jsonv.Array {
+					continue
+				}
+				for _, pe := range holder.Elems {
+					p := deref(pe)
+					if p == nil || p.Kind != jsonv.Object || p.Get("in") == nil || p.Get("in").Str != "path" || p.Get("name") == nil {
+						continue
+					}
+					if n := p.Get("name").Str; !strings.Contains(pm.Name, "{"+n+"}") {
+						names = append(names, n)
+					}
+				}
+			}
+			if len(names) > 0 {
+				out[strings.ToUpper(m)+" "+pm.Name] = names
+			}
+		}
+	}
+	return out
+}
+
+// ResponseHeaderNames: "METHOD /path" -> response key -> header names the document declares for that response
+// (component responses resolved).
+func ResponseHeaderNames(doc *jsonv.Value) map[string]map[string][]string {
+	out := map[string]map[string][]string{}
+	paths := doc.Get("paths")
+	if paths == nil || paths.Kind != jsonv.Object {
+		return out
+	}
+	for _, pm := range paths.Members {
+		if pm.Value.Kind != jsonv.Object {
+			continue
+		}
+		for _, m := range methods {
+			op := pm.Value.Get(m)
+			if op == nil || op.Kind != jsonv.Object || op.Get("responses") == nil || op.Get("responses").Kind != jsonv.Object {
+				continue
+			}
+			byCode := map[string][]string{}
+			for _, rm := range op.Get("responses").Members {
+				resp := rm.Value
+				for k := 0; k < 5 && resp != nil && resp.Kind == jsonv.Object && resp.Get("$ref") != nil; k++ {
+					const pre = "#/components/responses/"
+					ref := resp.Get("$ref").Str
+					c := doc.Get("components")
+					if !strings.HasPrefix(ref, pre) || c == nil || c.Get("responses") == nil {
+						resp = nil
+						break
+					}
+					resp = c.Get("responses").Get(ref[len(pre):])
+				}
+				names := []string{}
+				if resp != nil && resp.Kind == jsonv.Object && resp.Get("headers") != nil && resp.Get("headers").Kind == jsonv.Object {
+					for _, hm := range resp.Get("headers").Members {
+						names = append(names, hm.Name)
+					}
+				}
+				byCode[rm.Name] = names
+			}
+			out[strings.ToUpper(m)+" "+pm.Name] = byCode
+		}
+	}
+	return out
+}
+
 func Main(args []string) int {
 	r := ev.New("C01", "exploration")
 	only := ""
@@ -134,6 +234,8 @@ func Main(args []string) int {
 			}
 			if tree, err := doctree.Load(j.Spec); err == nil {
 				pk.Responses = ResponseKeys(tree)
+				pk.UnusedPathParams = UnusedPathParams(tree)
+				pk.ResponseHeaders = ResponseHeaderNames(tree)
 			}
 			info[key] = pk
 		}
